@@ -50,6 +50,9 @@ pub struct Recorder<S: Scheduler> {
     pub execs: usize,
     last_returned: Option<usize>,
     stopped: bool,
+    /// `config stop=N`: answer "no task" at the N-th decision (0-based) of every execution
+    pub stop_at: Option<usize>,
+    decisions: usize,
 }
 
 impl<S: Scheduler> Recorder<S> {
@@ -59,6 +62,8 @@ impl<S: Scheduler> Recorder<S> {
             execs: 0,
             last_returned: None,
             stopped: false,
+            stop_at: None,
+            decisions: 0,
         }
     }
 }
@@ -75,6 +80,7 @@ impl<S: Scheduler> Scheduler for Recorder<S> {
             end_of_execution_lines();
         }
         let r = self.inner.new_execution();
+        self.decisions = 0;
         match &r {
             Some(s) => {
                 log(format!("X {} {}", self.execs, s.seed));
@@ -110,7 +116,12 @@ impl<S: Scheduler> Scheduler for Recorder<S> {
                 cur, self.last_returned
             ));
         }
-        let r = self.inner.next_task(runnable, current, is_yielding);
+        let r = if self.stop_at == Some(self.decisions) {
+            None
+        } else {
+            self.inner.next_task(runnable, current, is_yielding)
+        };
+        self.decisions += 1;
         let ru = r.map(usize::from);
         if let Some(c) = ru {
             if !ids.contains(&c) {
